@@ -14,7 +14,7 @@ RULE = (
     "(one prefix bit flipped, biased to the last 4 bits) a preserved prefix of the configuration, or uniform; "
     "both families for host bits; a second address equal above bit B with another suffix. Oracles: "
     "membership in every preserved prefix (default list written out in the harness) is kept both ways; low B "
-    "bits unchanged; image>>B independent of the suffix (same and fresh anonymizer). edges: first/last address of "
+    "bits unchanged; image>>B independent of the suffix (same and fresh anonymizer). io: the host-bit oracle for both families through one FileAnonymizer (IPv4-mapped and other shaped IPv6 addresses, B6 != B4). edges: first/last address of "
     "each of the 7 default prefixes x salts (exhaustive over that grid). bulk: one anonymizer first processes 24000 (quick) / "
     "60000 (thorough) spread addresses, then addresses next to its preserved prefixes are checked as above. Non-trivial = image != input and "
     "(address within 4 bits of a preserved-prefix boundary, or 0<B<32 with differing suffixes); distinct by case."
@@ -129,7 +129,36 @@ def check_bulk(case, ev):
     return None
 
 
-REPLAY = {"addr": check_addr, "edges": check_edges, "bulk": check_bulk}
+def check_io(case, ev):
+    """The host-bit and prefix oracles through FileAnonymizer.anonymize_io (both families in one
+    object, as wired by the file-level API): {cfg, x4, x6}"""
+    import ipaddress
+
+    cfg, x4, x6 = case["cfg"], case["x4"], case["x6"]
+    fa, exc = guarded(G.file_anonymizer, cfg)
+    if exc is not None:
+        return core.exc_finding(exc, case, "ctor/")
+    line = "%s %s" % (G.v4_canon(x4), ipaddress.IPv6Address(x6))
+    out, exc = guarded(core.run_io, fa, line + "\n")
+    if exc is not None:
+        return core.exc_finding(exc, case, "io/")
+    parts = out.split()
+    ev.case(case, True, ["io", "B6>B4" if cfg["B6"] > cfg["B4"] else "B6<=B4"] + (["v4-mapped"] if (x6 >> 32) == 0xFFFF else []))
+    try:
+        y4, y6 = int(ipaddress.IPv4Address(parts[0])), int(ipaddress.IPv6Address(parts[1]))
+    except Exception:
+        return Finding("io/output-not-addresses", "%r -> %r" % (line, out), case)
+    if not G.is_mask(x4) and (x4 ^ y4) & ((1 << cfg["B4"]) - 1):
+        return Finding("hostbits/changed:v4:via-io", "cfg=%r: %r -> %r" % (cfg, line, out), case)
+    if (x6 ^ y6) & ((1 << cfg["B6"]) - 1):
+        return Finding("hostbits/changed:v6:via-io", "cfg=%r: %r -> %r (low %d bits must be kept)" % (cfg, line, out, cfg["B6"]), case)
+    ref6 = G.mk6(cfg).anonymize(x6)
+    if y6 != ref6:
+        return Finding("io/v6-image-differs-from-stand-alone-anonymizer", "cfg=%r: %r -> %r, IpV6Anonymizer alone gives %s" % (cfg, line, out, ipaddress.IPv6Address(ref6)), case)
+    return None
+
+
+REPLAY = {"io": check_io, "addr": check_addr, "edges": check_edges, "bulk": check_bulk}
 
 
 @st.composite
@@ -161,6 +190,19 @@ def t_bulk(shard, nshards, seed, ev, known, n=1, size=24000):
     return core.enum_drive(cases, check_bulk, ev, known, "bulk")
 
 
+@st.composite
+def _io_case(draw):
+    cfg = draw(G.config(networks="never"))
+    x4 = draw(G.u32)
+    while G.is_mask(x4):
+        x4 = (x4 * 7 + 12345) & G.M32
+    return {"cfg": cfg, "x4": x4, "x6": draw(G.v6_int)}
+
+
+def t_io(shard, nshards, seed, ev, known, n=300):
+    return core.hyp_drive(_io_case(), check_io, n, seed, ev, known, check_name="io")
+
+
 def t_addr(shard, nshards, seed, ev, known, n=1000):
     return core.hyp_drive(_case(), check_addr, n, seed, ev, known, check_name="addr")
 
@@ -180,6 +222,7 @@ def plan(tier):
     q = tier == "quick"
     return [
         Task("addr", t_addr, shards=4 if q else 16, n=2000 if q else 50000),
+        Task("io", t_io, shards=2 if q else 8, n=400 if q else 10000),
         Task("edges", t_edges, shards=2 if q else 8, nsalts=40 if q else 400),
         Task("bulk", t_bulk, shards=3 if q else 8, n=1 if q else 4, size=24000 if q else 60000),
     ]
